@@ -199,8 +199,15 @@ where
         strict_assert!(state.link.is_linked());
 
         match (state.is_pinned, state.in_high_priority_pool) {
-            (true, false) => unsafe { self.pin_list.remove_from_ptr(Arc::as_ptr(record)) },
+            // A record that leaves the container is not pinned any more: the hybrid cache may push the same record
+            // again later (a piece loaded back from the disk write queue), and a stale pin mark would make `acquire`
+            // skip it and `release` unlink it from the wrong list.
+            (true, false) => unsafe {
+                state.is_pinned = false;
+                self.pin_list.remove_from_ptr(Arc::as_ptr(record))
+            },
             (true, true) => unsafe {
+                state.is_pinned = false;
                 state.in_high_priority_pool = false;
                 self.pin_list.remove_from_ptr(Arc::as_ptr(record))
             },
@@ -228,6 +235,7 @@ where
             if state.in_high_priority_pool {
                 state.in_high_priority_pool = false;
             }
+            state.is_pinned = false;
 
             record.set_in_eviction(false);
         }
